@@ -195,6 +195,21 @@ def writesOk (t : List Entry) : Bool :=
     | .acc f true => writeOk en e f
     | _ => true))
 
+/-- objects for which no exception of `protectedAcc` is accepted at all: the per-address connection
+    counters (the search tree `daemon->per_ip_connection_count` and the `count` of its nodes) and the
+    digest-auth nonce table (`daemon->nnc[]`): *every* access, read or write, is made with the
+    designated mutex certainly held (or by the start-up code, before any thread exists) -/
+def strictFields : List Field := [.per_ip_count, .nnc]
+
+def strictAccOk (en : Entry) (e : Ev) (f : Field) : Bool :=
+  underDesignated en e f || en.role == Role.startup
+
+def strictOk (t : List Entry) : Bool :=
+  t.all (fun en => en.events.all (fun e =>
+    match e.kind with
+    | .acc f _ => !strictFields.contains f || strictAccOk en e f
+    | _ => true))
+
 /-- the "new connection pending" flag changes only in the critical section that changes the
     hand-over list: every write of `have_new` holds `new_connections_mutex` (so an
     `MHD_add_connection` from another thread can never fall between detaching the list and
